@@ -135,7 +135,10 @@ CHECKS = {
         "trace_module": "Trace_Hostile",
         "mc": [],
         "drivers": [{"name": "hostile", "driver": "hostile", "args": [], "trace_module": "Trace_Hostile",
-                     "n": {"quick": 150, "thorough": 2500}, "procs": {"quick": 6, "thorough": 14}}],
+                     "n": {"quick": 150, "thorough": 2500}, "procs": {"quick": 6, "thorough": 14}},
+                    # mutated filter / proof / block messages in the states of a running filter sync (scripts registered,
+                    # hashes known, records pending): any Panic event is a rejection
+                    fsync("adv", 20, 150, 2, 6)],
         "assumptions": COMMON_ASSUMPTIONS + [
             "a panic is observed with catch_unwind around CKBProtocolHandler::received / notify, with overflow checks on (as in the repository's release profile)",
             "byte strings are generated from honest messages (answers to the currently outstanding requests, earlier traffic, announcements, the client's own requests) by truncation, extension, tag / size / offset rewriting, boundary-value windows and re-sealed headers, plus random bytes; the space of byte strings is sampled, not enumerated",
